@@ -53,6 +53,7 @@ class Contract:
         self.functional = bool(d.get("functional", False))  # result is a deterministic function of the arguments
         self.ghost_yield = d.get("ghost_yield")  # Ty of yielded values for generators
         self.uses = list(d.get("uses", []))
+        self.uses_axioms = list(d.get("uses_axioms", []))   # @assumed statements, asserted universally at entry
         self.notes = d.get("notes", "")
         self.self_type = d.get("self_type")
         self.bounded_only = bool(d.get("bounded_only", False))
@@ -129,6 +130,17 @@ def lemma(measure=None, hyps=None, props=(), unfold=None):
     statement at every tuple returned by `hyps(args)` whose `measure` is >= 0 and strictly smaller."""
     def deco(f):
         l = Lemma(f, measure, hyps, tuple(props), unfold)
+        LEMMAS[f.__name__] = l
+        return l
+    return deco
+
+
+def assumed(props=()):
+    """An axiom: a statement `fn(args) -> bool` that is ASSUMED for all arguments (no proof obligation).  Only for
+    definitional facts about uninterpreted spec symbols; every one is listed in the evidence as unchecked."""
+    def deco(f):
+        l = Lemma(f, None, None, tuple(props), None)
+        l.assumed = True
         LEMMAS[f.__name__] = l
         return l
     return deco
